@@ -16,7 +16,7 @@ SCR=$(mktemp -d "$BASE/avfs-verif-setup.XXXXXX")
 trap 'rm -rf "$SCR"' EXIT
 ( cd "$REPO" && "$OLDPWD/bin/mkoverlay" "$REPO" "$OLDPWD" "$SCR" ) 2>/dev/null
 sed "s#=> /repo#=> $REPO#" go.mod > "$SCR/go.mod"; [ -f go.sum ] && cp go.sum "$SCR/go.sum"
-for d in cmd/c*/; do
+for d in cmd/c[0-9]*/; do
   n=$(basename "$d")
   case "$n" in
     c13|c17) tags=verif,avfs_setostype ;;
@@ -25,4 +25,14 @@ for d in cmd/c*/; do
   race=; [ "$n" = c08 ] && race=-race
   go build -modfile="$SCR/go.mod" -overlay="$SCR/overlay.json" -tags "$tags" $race -o "$SCR/$n" "./$d" || echo "setup: warm-up build of $n failed (the check will report it)" >&2
 done
+# scheduler self-test (lock model, preemption bounding, race-mode hand-off)
+go build -modfile="$SCR/go.mod" -overlay="$SCR/overlay.json" -tags verif -o "$SCR/rtselftest" ./cmd/rtselftest && "$SCR/rtselftest"
+go build -race -modfile="$SCR/go.mod" -overlay="$SCR/overlay.json" -tags verif -o "$SCR/rtselftest.race" ./cmd/rtselftest &&
+  GORACE="log_path=$SCR/rtrace halt_on_error=0 exitcode=0" "$SCR/rtselftest.race"
+
+# conformance of the transformed build: the repository's own tests must pass on
+# the overlay (sync shim, ordered map ranges, nextRandom seam, hooks) with no
+# explorer attached. osfs/osidm are not touched by the overlay and are skipped.
+( cd "$REPO" && go test -vet=off -count=1 -overlay="$SCR/overlay.json" -tags verif . ./idm/memidm ./vfs/memfs ./vfs/orefafs ./vfs/rofs ./vfs/basepathfs ./vfs/failfs ) \
+  || { echo "setup: the repository's tests fail on the overlay build" >&2; exit 1; }
 echo "setup done"
